@@ -62,6 +62,7 @@ def run(ctx):
                      LEAN / "E3nnVerif" / "Props" / "C16.lean", LEAN / "drivers" / "C16.lean"])
 
     quick = ctx.tier == "quick"
+    torch.set_num_threads(1)  # thousands of tiny tensors: threading only adds contention
     f64 = torch.float64
     saved_default = torch.get_default_dtype()
 
@@ -144,7 +145,7 @@ def _run(ctx, torch, soft_one_hot_linspace, soft_unit_step, normalize2mom, momen
             for basis in BASES:
                 for cutoff in (False, True):
                     configs.append((start, end, number, basis, cutoff, 64))
-    # default float32 with float64 input: the model predicts the float32 constant of smooth_finite
+    # default float32 with float64 input: the model (like the current code) does not depend on the default dtype
     for (start, end) in [(0.0, 1.0), (-3.7, -0.4), (-20.0, 120.0)]:
         for number in ([2, 7] if quick else NUMBERS):
             for basis in BASES:
@@ -162,7 +163,7 @@ def _run(ctx, torch, soft_one_hot_linspace, soft_unit_step, normalize2mom, momen
         y = real_soh(pts, start, end, number, basis, cutoff, dd)
         assert not isinstance(y, str), (cfg, y)
         assert y.dtype == f64 and tuple(y.shape) == (len(pts), number)
-        lines.append(" ".join(["soh", basis, "T" if cutoff else "F", str(dd), f2b(start), f2b(end), str(number)]
+        lines.append(" ".join(["soh", basis, "T" if cutoff else "F", f2b(start), f2b(end), str(number)]
                               + [f2b(p) for p in pts]))
         expect.append(("soh", (cfg, pts, y.tolist())))
         real_rows[cfg] = (pts, y)
@@ -187,7 +188,7 @@ def _run(ctx, torch, soft_one_hot_linspace, soft_unit_step, normalize2mom, momen
     for cutoff, number, basis in err_cases:
         pts = [0.25, 0.5, 1.5]
         y = real_soh(pts, 0.0, 1.0, number, basis, cutoff, 64)
-        lines.append(" ".join(["soh", basis if basis else "EMPTY", {None: "N", True: "T", False: "F"}[cutoff], "64",
+        lines.append(" ".join(["soh", basis if basis else "EMPTY", {None: "N", True: "T", False: "F"}[cutoff],
                                f2b(0.0), f2b(1.0), str(number)] + [f2b(p) for p in pts]))
         if isinstance(y, str):
             expect.append(("err", ((cutoff, number, basis), y)))
@@ -211,15 +212,9 @@ def _run(ctx, torch, soft_one_hot_linspace, soft_unit_step, normalize2mom, momen
         lines.append("n2m " + f2b(mod.cst) + " " + " ".join(f2b(v) for v in smp))
         expect.append(("n2m", (smp, mod.cst, mod._is_id, out_real)))
 
-    lines.append("sfc 32")
-    torch.set_default_dtype(torch.float32)
-    c32 = (1.14136 * torch.exp(torch.tensor(2.0))).double().item()
-    torch.set_default_dtype(torch.float64)
-    c64 = (1.14136 * torch.exp(torch.tensor(2.0))).item()
-    torch.set_default_dtype(torch.float32)
-    expect.append(("sfc", c32))
-    lines.append("sfc 64")
-    expect.append(("sfc", c64))
+    # the smooth_finite constant is the Python float 1.14136 * math.exp(2.0)
+    lines.append("sfc")
+    expect.append(("sfc", 1.14136 * math.exp(2.0)))
 
     # ------------------------------------------------------------------ run the model
     outs = ctx.run_driver("C16", lines)
@@ -247,7 +242,12 @@ def _run(ctx, torch, soft_one_hot_linspace, soft_unit_step, normalize2mom, momen
             if x <= 0 and not (y == 0.0 and g == 0.0):
                 ctx.violation("soft_unit_step/nonpositive-argument", dict(x=x, y=y, grad=g, expected="y == 0.0 and grad == 0.0"), True)
             if not math.isfinite(g):
-                sus_nan.append(x)
+                # class of the known defect: x > 0 so small that x*x underflows to 0 (then exp(-1/x) is 0 as well)
+                if x > 0 and x * x == 0.0 and math.isnan(g):
+                    sus_nan.append(x)
+                else:
+                    ctx.violation("soft_unit_step/backward-nonfinite", dict(x=x, y=y, grad=g,
+                                  expected="finite gradient (x*x does not underflow here)"), True)
         elif kind == "soh":
             cfg, pts, rows = payload
             start, end, number, basis, cutoff, dd = cfg
@@ -325,11 +325,7 @@ def _run(ctx, torch, soft_one_hot_linspace, soft_unit_step, normalize2mom, momen
         k += 1
 
     ctx.notes["max_relative_deviation_model_vs_code"] = {k: float(f"{v:.3e}") for k, v in sorted(maxdev.items())}
-    for stream in ("sus", "soh", "grid", "errors", "n2m", "sfc"):
-        b = bad.get(stream, [])
-        ctx.obligation(f"corr:{stream}", not b, repr(b[:3]))
-        if b:
-            ctx.violation(f"corr:{stream}", dict(disagreements=b[:10], count=len(b)), False)
+    # (the corr:* verdicts are issued after the default-dtype oracle below, which can explain a corr:soh disagreement)
 
     # ================================================================== checks on the real code only
     # ---- exact zero outside the interval (cutoff=True, finite support) ------------------------------------
@@ -355,12 +351,17 @@ def _run(ctx, torch, soft_one_hot_linspace, soft_unit_step, normalize2mom, momen
                                x=p, x_hex=float(p).hex(), side="below-or-at-start" if p <= start else "at-or-beyond-end",
                                strictly_outside=bool(p < start or p > end),
                                got=row.tolist()[:8], expected="all components == 0.0")
-                    if bool(torch.isnan(row).any()) and basis == "bessel" and p == start:
+                    has_nan = bool(torch.isnan(row).any())
+                    if has_nan and basis == "bessel" and p == start:
+                        # class: the 0/0 of the bessel branch exactly at x == start
                         nan_bessel.append(rec)
-                    elif basis == "cosine":
+                    elif (basis == "cosine" and not has_nan and p >= end and (p - end) <= 8 * math.ulp(end)
+                          and float(row.abs().max()) < 1e-12):
+                        # class: rounding of the mask quotient at / a few ulps beyond x == end, values ~1e-15
                         nz_cos.append(rec)
                     else:
-                        nz_other.append(rec)
+                        # anything else (other basis, below start, far beyond end, large or NaN values) is a different defect
+                        nz_other.append((basis, rec))
     ctx.count("exact-zero:points", zero_pts)
     ctx.notes["exact_zero_points_checked"] = zero_pts
     # bessel without cutoff at x == start: NaN as well (the finite limit is sqrt(2/c)*i*pi/c)
@@ -381,11 +382,13 @@ def _run(ctx, torch, soft_one_hot_linspace, soft_unit_step, normalize2mom, momen
                       "rounded independently, so diff can be 1-eps at/after x == end: values ~1e-15 instead of exactly 0. "
                       "Over the reals the value is exactly 0 (Props.C16.finite_support_cutoff).")
         ctx.violation("soft_one_hot_linspace/cosine-cutoff-not-exactly-zero-at-end", r, True)
-    if nz_other:
-        r = dict(nz_other[0])
-        r.update(count=len(nz_other))
-        ctx.violation("soft_one_hot_linspace/finite-support-nonzero-outside", r, True)
-    ctx.obligation("real:exact-zero-outside(smooth_finite,fourier)", not nz_other, repr(nz_other[:2]))
+    for basis in FINITE:
+        recs = [r for b_, r in nz_other if b_ == basis]
+        if recs:
+            r = dict(recs[0])
+            r.update(count=len(recs))
+            ctx.violation(f"soft_one_hot_linspace/{basis}-cutoff-nonzero-outside", r, True)
+    ctx.obligation("real:exact-zero-outside(except-known-classes)", not nz_other, repr(nz_other[:2]))
 
     # ---- shape independence ---------------------------------------------------------------------------------
     shape_bad = []
@@ -424,16 +427,28 @@ def _run(ctx, torch, soft_one_hot_linspace, soft_unit_step, normalize2mom, momen
                         d = (a - b).abs()
                         j = int(d.nan_to_num(0.0).max(dim=1).values.argmax())
                         rel = (d / b.abs().clamp_min(1e-300)).nan_to_num(0.0)[b != 0].max().item() if bool((b != 0).any()) else 0.0
-                        dd_bad.append(dict(call=f"soft_one_hot_linspace(x_float64, {start!r}, {end!r}, {number}, {basis!r}, cutoff={cutoff})",
+                        dd_bad.append(dict(basis=basis, call=f"soft_one_hot_linspace(x_float64, {start!r}, {end!r}, {number}, {basis!r}, cutoff={cutoff})",
                                            x=pts[j], default_float32=a[j].tolist(), default_float64=b[j].tolist(),
                                            max_abs=d.nan_to_num(0.0).max().item(), max_rel=rel))
-    if dd_bad:
-        r = dict(dd_bad[0])
-        r.update(count=len(dd_bad), bases=sorted({q["call"].split("'")[1] for q in dd_bad}),
-                 expected="identical float64 output whatever torch.get_default_dtype() is",
-                 note="`1.14136 * torch.exp(torch.tensor(2.0))` is a tensor of the DEFAULT dtype: under float32 the constant is "
-                      "0x1.0ddfd6p+3 instead of 0x1.0ddfd4a10360cp+3 (relative 7.8e-8) although x, values and the result are float64")
-        ctx.violation("soft_one_hot_linspace/smooth_finite-default-dtype", r, True)
+    dd_bases = sorted({q["basis"] for q in dd_bad})
+    for basis in dd_bases:
+        recs = [q for q in dd_bad if q["basis"] == basis]
+        r = dict(recs[0])
+        r.update(count=len(recs), expected="identical float64 output whatever torch.get_default_dtype() is",
+                 note="a float64 input must give the same float64 values under both default dtypes; before e3nn d69bad1 the "
+                      "smooth_finite constant `1.14136 * torch.exp(torch.tensor(2.0))` was a tensor of the DEFAULT dtype "
+                      "(0x1.0ddfd6p+3 under float32 instead of 0x1.0ddfd4a10360cp+3, relative 7.8e-8)")
+        ctx.violation(f"soft_one_hot_linspace/{basis}-default-dtype", r, True)
+    ctx.obligation("real:default-dtype-independence", not dd_bad, repr(dd_bad[:2]))
+    # corr verdicts; soh disagreements confined to the float32-default runs of a basis the oracle above flagged
+    # are that defect (the failing input is the oracle's), not an unexplained model/code disagreement
+    if bad.get("soh"):
+        bad["soh"] = [d for d in bad["soh"] if not ("cfg" in d and d["cfg"][5] == 32 and d["cfg"][3] in dd_bases)]
+    for stream in ("sus", "soh", "grid", "errors", "n2m", "sfc"):
+        bb = bad.get(stream, [])
+        ctx.obligation(f"corr:{stream}", not bb, repr(bb[:3]))
+        if bb:
+            ctx.violation(f"corr:{stream}", dict(disagreements=bb[:10], count=len(bb)), False)
     ctx.notes["default_dtype_dependent_cases"] = len(dd_bad)
 
     # ---- sum of squares: fixed bounds of 1 in the interior (dense + boundary targeted) -----------------------------
@@ -569,20 +584,19 @@ def replay(ctx, path):
     f64 = torch.float64
     saved = torch.get_default_dtype()
     try:
-        if key == "soft_unit_step/backward-nan-tiny-positive":
+        if key in ("soft_unit_step/backward-nan-tiny-positive", "soft_unit_step/backward-nonfinite"):
             x = torch.tensor(r["x"], dtype=f64, requires_grad=True)
             soft_unit_step(x).backward()
             got = x.grad.item()
             bad = not math.isfinite(got)
         elif key in ("soft_one_hot_linspace/bessel-nan-at-start",
-                     "soft_one_hot_linspace/cosine-cutoff-not-exactly-zero-at-end",
-                     "soft_one_hot_linspace/finite-support-nonzero-outside"):
+                     "soft_one_hot_linspace/cosine-cutoff-not-exactly-zero-at-end") or key.endswith("-cutoff-nonzero-outside"):
             torch.set_default_dtype(f64)
             x = torch.tensor([r["x"]], dtype=f64)
             got = eval(r["call"], dict(soft_one_hot_linspace=soft_one_hot_linspace, x=x))[0]
             bad = not bool((got == 0.0).all())
             got = got.tolist()
-        elif key == "soft_one_hot_linspace/smooth_finite-default-dtype":
+        elif key.endswith("-default-dtype"):
             x_float64 = torch.tensor([r["x"]], dtype=f64)
             env = dict(soft_one_hot_linspace=soft_one_hot_linspace, x_float64=x_float64)
             torch.set_default_dtype(torch.float32)
